@@ -1158,6 +1158,13 @@ func (m *vfMachine) finish(t *rapid.T) {
 	m.logf(t, "-- end of generated sequence: drain")
 	m.drain(t)
 	if m.focus != "C04" {
+		// C13, first clause: "as long as blocks can be sampled the DASer eventually samples every
+		// known height" - after the fair continuation nothing may be left unsampled (a worker that
+		// vanished without reporting is judged by B3, not here)
+		if missing := m.notOK(); m.on("L2") && len(missing) > 0 && m.prev.leaked() == 0 && !m.capHit {
+			m.fail(t, "C13/L2 height(s) %v were never successfully sampled although every sampling call succeeded until catch-up was reported done: %s (start=%d known head=%d)",
+				missing, m.prev, m.start, m.netHead)
+		}
 		return
 	}
 	if len(m.notOK()) > 0 && m.prev.leaked() > 0 && !m.capHit {
